@@ -118,8 +118,8 @@ class Info(object):
     def names(self):
         return set(self.dims) | set(self.vars)
 
-    def fresh(self, prefix):
-        used = self.names()
+    def fresh(self, prefix, avoid=()):
+        used = self.names() | set(avoid)
         i = 0
         while '%s%d' % (prefix, i) in used:
             i += 1
@@ -503,7 +503,7 @@ def draw_renvar(draw, info):
     ren = [[old, info.fresh('r')]]
     if multi:
         old2 = draw(st.sampled_from([k for k in names if k != old]))
-        ren.append([old2, info.fresh('r') + 'b'])
+        ren.append([old2, info.fresh('r', avoid=[ren[0][1]])])
     return dict(ren=ren, multi=multi)
 
 
@@ -516,7 +516,7 @@ def draw_rendim(draw, info):
     multi = draw(st.integers(0, 3)) == 0 and len(names) >= 2
     if multi:
         old2 = draw(st.sampled_from([k for k in names if k != old]))
-        ren.append([old2, info.fresh('q') + 'b'])
+        ren.append([old2, info.fresh('q', avoid=[ren[0][1]])])
     return dict(ren=ren, multi=multi)
 
 
@@ -601,12 +601,13 @@ def draw_eval(draw, info):
     form = draw(st.sampled_from([
         '{t} = {a} * 2', '{t} = {a} + {b}', '{t} = np.abs({a}) - {b}',
         '{t} = np.where({a} > {b}, {a}, {b})', '{t} = {a} * 0 + 1.5',
-        '{t} = {a} + {b}\n{t}b = {a} - 1']))
+        '{t} = {a} + {b}\n{u} = {a} - 1']))
     if info.disk:
         # netCDF4.Variable objects have no arithmetic: expressions on
         # disk-backed files read the data first (as pncexpr users do)
         a, b = a + '[:]', b + '[:]'
-    return dict(expr=form.format(t=tgt, a=a, b=b),
+    return dict(expr=form.format(t=tgt, a=a, b=b,
+                                 u=info.fresh('e', avoid=[tgt])),
                 copyall=draw(st.booleans()))
 
 
